@@ -42,6 +42,7 @@ static void add_op(int kind, int s, int t, int arg, const char* fmt, ...)
 }
 
 static int with_big;
+static void build_directed(void);
 
 static void build_alphabet(int tier)
 {
@@ -66,12 +67,37 @@ static void build_alphabet(int tier)
         }
         add_op(OP_C, 0, 1, 0, "C(x,y)");
         add_op(OP_C, 1, 0, 0, "C(y,x)");
+        build_directed();
         (void)tier;
 }
 
 static int depth(int tier) { return tier ? 4 : 3; }
 
-uint64_t vh_total(int tier)
+/* directed block: every history of exactly DDEPTH calls on the single object x over the sub-alphabet
+   {R(x,file0), R(x,file1), R(x,file2), R(x,file4), A(x,cfg0..2), W(x,fasta)} - one level deeper than the full search
+   (read - align - read - align and the like); judged by the validity / leak / crash oracles and, via the full-alphabet
+   histories, by the projection oracle */
+#define NDIR 8
+static int DIR[NDIR];
+static int ddepth(int tier) { return tier ? 5 : 4; }
+
+static void build_directed(void)
+{
+        int i, k = 0;
+        for(i = 0; i < NOPS; i++){
+                const struct op* o = &OPS[i];
+                if(o->s != 0 || o->t >= 0){
+                        continue;
+                }
+                if((o->kind == OP_R && o->arg != 3) || o->kind == OP_A || (o->kind == OP_W && o->arg == 0)){
+                        if(k < NDIR){
+                                DIR[k++] = i;
+                        }
+                }
+        }
+}
+
+static uint64_t bfs_total(int tier)
 {
         uint64_t t = 0, p = 1;
         int d;
@@ -81,6 +107,18 @@ uint64_t vh_total(int tier)
         }
         return t;
 }
+
+static uint64_t dir_total(int tier)
+{
+        uint64_t p = 1;
+        int d;
+        for(d = 0; d < ddepth(tier); d++){
+                p *= NDIR;
+        }
+        return p;
+}
+
+uint64_t vh_total(int tier) { return bfs_total(tier) + dir_total(tier); }
 
 static int decode(uint64_t id, int tier, int* h)
 {
@@ -97,6 +135,14 @@ static int decode(uint64_t id, int tier, int* h)
                 }
                 id -= p;
         }
+        if(id < dir_total(tier)){
+                d = ddepth(tier);
+                for(i = d - 1; i >= 0; i--){
+                        h[i] = DIR[id % NDIR];
+                        id /= NDIR;
+                }
+                return d;
+        }
         return 0;
 }
 
@@ -106,7 +152,7 @@ static int enabled(const int* h, int n, int tier)
         int live[2] = {0, 0}, i;
         for(i = 0; i < n; i++){
                 const struct op* o = &OPS[h[i]];
-                if(tier && n >= 4 && ((o->kind == OP_K && o->arg / 2 == 2) || (o->kind == OP_R && o->arg == 3))){
+                if(tier && n == 4 && ((o->kind == OP_K && o->arg / 2 == 2) || (o->kind == OP_R && o->arg == 3))){
                         return 0;
                 }
                 switch(o->kind){
